@@ -22,6 +22,8 @@ LEVEL_TEXT = ('Decides from the source: every FailedParse raised by the engine i
               'without raising, for every string over a small alphabet (exhaustive up to length 3, thorough 4); every index into a line cache is dominated by an emptiness guard in all '
               'cursor classes; unknown rules are reported before any analysis dereferences rule names; repetition and skip-to '
               'loops make progress. Implicit exceptions in general, and agreement of line/column with the position, are not decided.')
+TECHNIQUE += "; operand coverage of the undefined-rule analysis over every model class (every operand field is read), termination of the whitespace/comment eat loops under empty matches (interpreted with a scanner that answers empty matches), converter-guard rule (int/float/eval/re.compile of matched or grammar text sits under handlers covering the converter's exception set and raising a TatSu error), definite assignment on the error-rendering path"
+LEVEL_TEXT += ' Added clauses: rules referenced from any operand (incl. join separators) are seen by the undefined-rule check; an empty match ends the skip loop; converters of matched or grammar text cannot leak ValueError/OverflowError/SyntaxError/re.error/UnicodeDecodeError; rendering a failure reads no possibly-unbound local.'
 LEVEL_NOTE = 'Trusted: the exception hierarchy of tatsu/exceptions.py; int()/float() raise ValueError on an empty string.'
 EXPLANATION = ('Static analysis of /repo sources, TatSu not imported. Raise sites are enumerated and classified through the static '
                'class table; scanner/consumer pairs of tatsu/input/cursor.py are analysed with the path engine and the '
